@@ -17,6 +17,7 @@ import json
 import logging
 import math
 import os
+import random
 import sys
 
 import numpy as np
@@ -334,6 +335,9 @@ def fixed_cases():
     rt.max_reflections = 1
     out.append(("uniform", {"tracer": "UniformRayTracer", "from": [0.0, 0.0, -300.0], "to": [0.0, 0.0, -100.0], "n": 1.5, "range": [-1000.0, 0.0],
                             "above": 1.0, "below": 1.9, "max_reflections": 1, "vertical": True}, rt))
+    # nearly horizontal refracted ray whose first depth grid has a single node (linspace(..., 1): step = nan)
+    a, b = [0.0, 0.0, -132.43983887845013], [-28.45448658053962, 90.75169159342167, -134.05176547190752]
+    out.append(("basic", {"tracer": "BasicRayTracer", "from": a, "to": b}, BasicRayTracer(a, b)))
     # surface reflections: total internal (far, shallow) and partial (steep)
     for a, b in (([0.0, 0.0, -50.0], [150.0, 0.0, -60.0]), ([10.0, -5.0, -300.0], [60.0, 20.0, -200.0])):
         out.append(("specialized", {"tracer": "SpecializedRayTracer", "from": a, "to": b}, SpecializedRayTracer(a, b)))
@@ -695,7 +699,13 @@ def probes(ctx, cases_in):
                 a0 = np.asarray(path.attenuation(np.array([0.0, 3e8])), float)
             # attenuation in (0,1], even, non-increasing
             stats["attenuation"] += 1
-            okA = np.all(a_up > 0) and np.all(a_up <= 1) and np.all(np.isfinite(a_up))
+            okA = np.all(a_up >= 0) and np.all(a_up <= 1) and np.all(np.isfinite(a_up))
+            for j in np.where(a_up == 0)[0]:
+                # exp(-I) underflows to 0.0 in binary64 for I > 745: only then is a zero acceptable
+                try:
+                    okA = okA and attenuation_exponent_oracle(path, float(ladder[j])) > 700
+                except Exception:
+                    okA = False
             if not okA:
                 ctx.fail("attenuation-range:%s:%d" % (tag, si), "%s attenuation outside (0,1]: %s" % (kind, a_up.tolist()), {"kind": "attenuation", **base})
             if not np.all(np.abs(a_up - a_dn) <= 4 * EPS * a_up):
@@ -838,6 +848,217 @@ def probes(ctx, cases_in):
     ctx.extra["probe_counts"] = stats
 
 
+# ---------------------------------------------------------------------------- inputs of every Signal kind
+INPUT_KINDS = ["signal", "function:gauss", "function:triangle", "function:buffered", "function:sum", "function:scaled",
+               "askaryan", "noise"]
+
+
+def make_input(kind, rng):
+    """An input signal for propagate() together with independently known samples.
+    Returns (signal, groups, times) where groups = [(ext_times, sample, n_before)]: for every function group its
+    own (buffer-extended) grid and a function sample(t) giving the group's values at the times t, known from the
+    analytic function / a twin object, never read from the object that is handed to propagate().  (A lazy signal
+    is evaluated at time stamp minus delay, so the expected samples are sample((t + tof) - tof).)"""
+    import pyrex
+    n = rng.choice([4, 8, 16, 31, 48, 64])
+    dt = rng.choice([1e-9, 0.5e-9, 2e-9])
+    t0 = rng.choice([0.0, 1e-7, -3e-8])
+    times = t0 + dt * np.arange(n)
+    tc, w, f0 = t0 + rng.uniform(0.3, 0.7) * n * dt, rng.uniform(1.5, 5) * dt, rng.uniform(0.05, 0.3) / dt
+    amp = 10 ** rng.uniform(-2, 2)
+
+    def gauss(t):
+        return amp * np.exp(-((t - tc) / w) ** 2) * np.cos(2 * np.pi * f0 * (t - tc))
+
+    def triangle(t):
+        return amp * np.maximum(0.0, 1 - np.abs(t - tc) / (3 * w))
+
+    def ext_grid(lead, trail):
+        nb = 0 if lead == 0 else int(lead / dt) + 1
+        na = 0 if trail == 0 else int(trail / dt) + 1
+        return np.concatenate((times[0] - dt * np.arange(nb, 0, -1), times, times[-1] + dt * np.arange(1, na + 1))), nb
+    field = pyrex.Signal.Type.field
+    if kind == "signal":
+        x = np.array([rng.gauss(0, 1) for _ in range(n)]) * amp
+        return pyrex.Signal(times, x, value_type=field), [(times, lambda t, x=x: x, 0)], times
+    if kind in ("function:gauss", "function:triangle"):
+        g = gauss if kind.endswith("gauss") else triangle
+        return pyrex.FunctionSignal(times, g, value_type=field), [(times, g, 0)], times
+    if kind == "function:buffered":
+        # buffers that are not multiples of dt: the number of buffer samples does not depend on the rounding of dt
+        lead, trail = rng.choice([7.3, 2.6, 0.0]) * dt, rng.choice([4.6, 11.2]) * dt
+        sig = pyrex.FunctionSignal(times, gauss, value_type=field)
+        sig.set_buffers(leading=lead, trailing=trail)
+        ext, nb = ext_grid(lead, trail)
+        return sig, [(ext, gauss, nb)], times
+    if kind == "function:sum":
+        a_, b_ = pyrex.FunctionSignal(times, gauss, value_type=field), pyrex.FunctionSignal(times, triangle, value_type=field)
+        lead = rng.choice([0.0, 3.4]) * dt
+        if lead:
+            b_.set_buffers(leading=lead)
+        ext, nb = ext_grid(lead, 0.0)
+        return a_ + b_, [(times, gauss, 0), (ext, triangle, nb)], times
+    if kind == "function:scaled":
+        c1, c2 = rng.choice([2.5, -0.5, 3.0]), rng.choice([0.5, 4.0])
+        sig = (pyrex.FunctionSignal(times, gauss, value_type=field) * c1) / c2
+        return sig, [(times, lambda t: gauss(t) * c1 / c2, 0)], times
+    if kind == "askaryan":
+        from pyrex.askaryan import AskaryanSignal
+        from pyrex.particle import Particle
+
+        def build():
+            part = Particle(particle_id=Particle.Type.electron_neutrino, vertex=(0, 0, -1000), direction=(0, 0, 1), energy=1e8,
+                            interaction_type="cc")
+            part.interaction.em_frac, part.interaction.had_frac = 1, 0
+            return AskaryanSignal(times=times - t0, particle=part, viewing_angle=0.9, viewing_distance=100.0)
+        twin = build()
+
+        def sample(t):
+            with np.errstate(all="ignore"):
+                return np.array(twin.with_times(np.asarray(t, float)).values, float)
+        if not np.all(np.isfinite(sample(times - t0))):
+            return make_input("function:gauss", rng)
+        return build(), [(times - t0, sample, 0)], times - t0
+    if kind == "noise":
+        seed = rng.randrange(2 ** 31)
+        band = (0.05 / dt, 0.3 / dt)
+        np.random.seed(seed)
+        sig = pyrex.signals.FullThermalNoise(times, f_band=band, f_amplitude=lambda f: 1.0 + 0.5 * np.cos(f * dt * 7), rms_voltage=amp)
+        fr, am, ph, rms = np.array(sig.freqs), np.array(sig.amps), np.array(sig.phases), float(sig.rms)
+        def sample(t):
+            return np.asarray(sum(a * np.cos(2 * np.pi * f * t + p) for f, a, p in zip(fr, am, ph)) * np.sqrt(2 / len(fr)) * rms, float)
+        return sig, [(times, sample, 0)], times
+    raise ValueError(kind)
+
+
+def fresh_values(sig):
+    """the signal's values as a fresh evaluation would give them (lazy signals cache theirs)"""
+    with np.errstate(all="ignore"):
+        return np.array(sig.copy().values, float)
+
+
+def probe_inputs(ctx, cases_in):
+    """propagate() fed with every kind of Signal (plain, FunctionSignal with one / several function groups, with
+    buffers, scaled, Askaryan pulse, thermal noise), with and without polarization: each output judged on its own
+    against the per-frequency factor (attenuation(|f|) x Fresnel x projection, applied once), the input left
+    untouched, a second propagate of the same input identical."""
+    import pyrex
+    from pyrex.ray_tracing import BasicRayTracePath
+    rng = ctx.rng
+    stats = {"by_kind": {}, "with_polarization": 0, "without_polarization": 0, "repeat": 0, "input_unchanged": 0, "skipped": 0}
+    kinds_cycle = 0
+    for tag, desc, rt in cases_in:
+        sols = solutions_of(rt)
+        if not sols:
+            continue
+        for si, path in enumerate(sols):
+            kname = type(path).__name__
+            with np.errstate(all="ignore"):
+                tof = float(path.tof)
+                e = np.asarray(path.emitted_direction, float)
+                fres = tuple(complex(z) for z in path.fresnel)
+            if abs(e[0]) + abs(e[1]) <= 1e-6:
+                us_o = np.array([math.sin(float(path.phi)), -math.cos(float(path.phi)), 0.0])
+            else:
+                us_o = np.cross(e, [0, 0, 1.0])
+                us_o = us_o / np.linalg.norm(us_o)
+            up_o = np.cross(us_o, e)
+            up_o = up_o / np.linalg.norm(up_o)
+            for _ in range(ctx.n(2, 3)):
+                kind = INPUT_KINDS[kinds_cycle % len(INPUT_KINDS)]
+                kinds_cycle += 1
+                sub_seed = rng.randrange(2 ** 31)
+                try:
+                    sig, groups, times = make_input(kind, random.Random(sub_seed))
+                except Exception as ex:
+                    stats["skipped"] += 1
+                    continue
+                stats["by_kind"][kind] = stats["by_kind"].get(kind, 0) + 1
+                pol = rand_pol(rng)
+                is_basic = isinstance(path, BasicRayTracePath)
+                interp = rng.choice([None, None, 0.05, 0.3, 1.0]) if is_basic else None
+                rep = {"kind": "inputs", "geometry": desc, "solution": si, "class": kname, "input_kind": kind, "times": [float(t) for t in times],
+                       "polarization": [float(v) for v in pol], "attenuation_interpolation": interp, "input_seed": sub_seed}
+                ctx.case(key=("inputs", kind, json.dumps(desc, sort_keys=True, default=str), si))
+                n = len(times)
+                exact_table = (not is_basic) or (interp is None and all(len(g[0]) == n for g in groups))
+                if exact_table:
+                    def A(f):
+                        with np.errstate(all="ignore"):
+                            return np.asarray(path.attenuation(np.abs(np.asarray(f, float))), float)
+                else:
+                    grid = basic_freq_grid(times, interp)
+                    with np.errstate(all="ignore"):
+                        av = np.asarray(path.attenuation(grid), float)
+
+                    def A(f):
+                        return np.interp(f, grid, av)
+
+                def expected(scale, coeff, force_real):
+                    out = np.zeros(n)
+                    for ext, sample, nb in groups:
+                        y = oracle_filter(ext, sample((ext + tof) - tof) * scale, lambda f: A(f) * coeff, force_real)
+                        out += y[nb:nb + n]
+                    return out
+                xmax = max(float(np.max(np.abs(g[1](g[0])))) for g in groups)
+                mlen = max(len(g[0]) for g in groups)
+                tol = ((2 * mlen) ** 2 * 8 * EPS * xmax * max(1.0, float(np.linalg.norm(pol))) * max(1.0, abs(fres[0]), abs(fres[1])) * 8 * len(groups)
+                       + 1e-9 * xmax * max(1.0, float(np.linalg.norm(pol))) + 1e-300)
+                in_type = sig.value_type
+                try:
+                    (s1, p1), _ = call_propagate(path, sig, pol, interp)
+                    v_s1, v_p1 = np.array(s1.values, float), np.array(p1.values, float)
+                    t_s1, t_p1 = np.array(s1.times, float), np.array(p1.times, float)
+                    after_first = fresh_values(sig)
+                    (s2, p2), _ = call_propagate(path, sig, pol, interp)
+                    v_s2, v_p2 = np.array(s2.values, float), np.array(p2.values, float)
+                    with np.errstate(all="ignore"):
+                        if is_basic:
+                            o1 = path.propagate(signal=sig, attenuation_interpolation=interp)
+                        else:
+                            o1 = path.propagate(signal=sig)
+                    v_o1, t_o1 = np.array(o1.values, float), np.array(o1.times, float)
+                    after_all = fresh_values(sig)
+                except Exception as ex:
+                    ctx.fail("inputs-raises:%s:%s" % (kname, kind), "%s.propagate raised %r for a %s input" % (kname, ex, kind), rep)
+                    continue
+                want_s = expected(float(np.dot(pol, us_o)), fres[0], True)
+                want_p = expected(float(np.dot(pol, up_o)), fres[1], True)
+                want_o = expected(1.0, 1.0, False)
+                want_in = np.zeros(n)
+                for ext, sample, nb in groups:
+                    want_in += sample(ext)[nb:nb + n]
+                stats["with_polarization"] += 1
+                for nm, got, want in (("s", v_s1, want_s), ("p", v_p1, want_p)):
+                    err = float(np.max(np.abs(got - want))) if len(got) == n else float("inf")
+                    if not err <= tol:
+                        ctx.fail("inputs-factor-%s:%s:%s" % (nm, kname, kind),
+                                 "%s.propagate(%s input, polarization): the %s output is not the input x projection x attenuation(|f|) x Fresnel applied once per frequency (max error %.3g > %.3g)" % (
+                                     kname, kind, nm, err, tol), rep)
+                stats["without_polarization"] += 1
+                err = float(np.max(np.abs(v_o1 - want_o))) if len(v_o1) == n else float("inf")
+                if not err <= tol:
+                    ctx.fail("inputs-factor-unpolarized:%s:%s" % (kname, kind),
+                             "%s.propagate(%s input) without polarization is not the input x attenuation(|f|) per frequency (max error %.3g > %.3g)" % (kname, kind, err, tol), rep)
+                if not (np.array_equal(t_s1, times + tof) and np.array_equal(t_p1, times + tof) and np.array_equal(t_o1, times + tof)):
+                    ctx.fail("inputs-grid:%s:%s" % (kname, kind), "%s.propagate(%s input): output times are not input times + tof" % (kname, kind), rep)
+                stats["repeat"] += 1
+                if not (np.array_equal(v_s1, v_s2) and np.array_equal(v_p1, v_p2)):
+                    ctx.fail("inputs-repeat:%s:%s" % (kname, kind),
+                             "propagating the same %s input twice along the same %s gives different results (max difference %.3g)" % (
+                                 kind, kname, float(max(np.max(np.abs(v_s1 - v_s2)), np.max(np.abs(v_p1 - v_p2))))), rep)
+                stats["input_unchanged"] += 1
+                in_tol = 64 * EPS * xmax * len(groups) + 1e-300
+                bad_in = (not np.array_equal(np.asarray(sig.times, float), times)) or sig.value_type != in_type \
+                    or float(np.max(np.abs(after_first - want_in))) > in_tol or float(np.max(np.abs(after_all - want_in))) > in_tol \
+                    or float(np.max(np.abs(np.asarray(sig.values, float) - want_in))) > in_tol
+                if bad_in:
+                    ctx.fail("inputs-modified:%s:%s" % (kname, kind),
+                             "%s.propagate modified its %s input (values now differ from the input's samples by %.3g)" % (
+                                 kname, kind, float(max(np.max(np.abs(after_first - want_in)), np.max(np.abs(after_all - want_in))))), rep)
+    ctx.extra["input_probe_counts"] = stats
+
+
 # ---------------------------------------------------------------------------- entry points
 def run(ctx):
     ctx.rule = ("geometries: random endpoints for SpecializedRayTracer, BasicRayTracer, UniformRayTracer (1-3 reflections, index above/below varied, total "
@@ -862,6 +1083,7 @@ def run(ctx):
         ctx.oblige("gen:Gen_prop", False, "translation failed (fail-closed): %s" % e)
         cases = fixed_cases() + tracer_cases(ctx.rng, ctx.n(3, 100))
         probes(ctx, cases)
+        probe_inputs(ctx, cases)
         return
     ok = ctx.coq_build("C03")
     pins = current_pins()
@@ -879,7 +1101,9 @@ def run(ctx):
             ctx.oblige("corr:propagation", False, repr(e)[-1500:])
     t1 = time.time()
     probes(ctx, cases)
-    ctx.extra["timing_s"] = {"correspondence": round(t1 - t0, 1), "probes": round(time.time() - t1, 1)}
+    t2 = time.time()
+    probe_inputs(ctx, cases)
+    ctx.extra["timing_s"] = {"correspondence": round(t1 - t0, 1), "probes": round(t2 - t1, 1), "input_probes": round(time.time() - t2, 1)}
 
 
 def replay(ctx, obj):
@@ -897,6 +1121,28 @@ def replay(ctx, obj):
             print("attenuation(1e8, 1e9):", p.attenuation(np.array([1e8, 1e9])))
             pol = obj.get("polarization", [1.0, 0.0, 0.0])
             print("polarization vectors:", p.propagate(polarization=pol))
+            if "input_kind" in obj:
+                sig, groups, times = make_input(obj["input_kind"], random.Random(obj["input_seed"]))
+                interp = obj.get("attenuation_interpolation")
+                tof = float(p.tof)
+                (ss, sp), _ = call_propagate(p, sig, pol, interp)
+                print("input kind:", obj["input_kind"], "class", type(sig).__name__, "N =", len(times))
+                print("s output:", np.asarray(ss.values)[:6], "\np output:", np.asarray(sp.values)[:6])
+                want_in = sum(sample(ext)[nb:nb + len(times)] for ext, sample, nb in groups)
+                print("input samples (independently known):", want_in[:6])
+                print("input values after propagate (fresh evaluation):", fresh_values(sig)[:6])
+                (s2, p2), _ = call_propagate(p, sig, pol, interp)
+                print("second propagate of the same input, max |difference| to the first: s %.3g, p %.3g" % (
+                    float(np.max(np.abs(np.asarray(s2.values) - np.asarray(ss.values)))), float(np.max(np.abs(np.asarray(p2.values) - np.asarray(sp.values))))))
+                A = lambda f: np.asarray(p.attenuation(np.abs(np.asarray(f, float))), float)
+                e = np.asarray(p.emitted_direction, float)
+                if abs(e[0]) + abs(e[1]) > 1e-6:
+                    us_o = np.cross(e, [0, 0, 1.0]); us_o /= np.linalg.norm(us_o)
+                    up_o = np.cross(us_o, e); up_o /= np.linalg.norm(up_o)
+                    fres = tuple(complex(z) for z in p.fresnel)
+                    for nm, amp, co in (("s", float(np.dot(pol, us_o)), fres[0]), ("p", float(np.dot(pol, up_o)), fres[1])):
+                        w = sum(oracle_filter(ext, sample((ext + tof) - tof) * amp, lambda f: A(f) * co, True)[nb:nb + len(times)] for ext, sample, nb in groups)
+                        print("expected %s output (exact attenuation on the FFT grid, applied once):" % nm, w[:6])
             if "x" in obj:
                 s = pyrex.Signal(np.asarray(obj["times"]), np.asarray(obj["x"]), value_type=pyrex.Signal.Type.field)
                 (ss, sp), _ = call_propagate(p, s, pol, obj.get("attenuation_interpolation"))
